@@ -116,6 +116,17 @@ func ccStyled(cc, style string) []string {
 			}
 		}
 		return out
+	case "quoted":
+		// delta-seconds arguments in quoted-string form (recipients ought to accept both, RFC 9111 §5.2)
+		var out []string
+		for _, p := range splitList(cc) {
+			k, v, has := strings.Cut(p, "=")
+			if _, _, _, valid := parseDelta(v); has && valid && !strings.HasPrefix(v, `"`) {
+				p = k + `="` + v + `"`
+			}
+			out = append(out, p)
+		}
+		return []string{strings.Join(out, ", ")}
 	case "case":
 		var out []string
 		for _, p := range splitList(cc) {
@@ -508,6 +519,8 @@ func (r *Run) compose(g *kit.Gor, call *UpCall, req *http.Request, res, planIdx 
 		add("Expires", "0")
 	case "invalid":
 		add("Expires", "soon")
+	case "empty":
+		add("Expires", "") // present, and not a date: "already expired" (RFC 9111 §5.3)
 	}
 	switch plan.LMMode {
 	case "rel":
